@@ -355,7 +355,7 @@ def _token_gaps(chk: Check, R1: str, lm, lexrel: str) -> None:
     import os
     blanks = [c for c in lm.spec.ignore if c in ' \t']
     sigma = _regex_alphabet(lm)
-    deep = os.environ.get('VERIF_TIER') == 'thorough'
+    deep = chk.tier == 'thorough'
     emitted = {n for n in lm.order if lm.rules[n].returns_token != 'never'}
 
     def stream(toks):
